@@ -2201,8 +2201,12 @@ impl<'input, T: Input> Scanner<'input, T> {
     /// some contexts.
     #[allow(clippy::too_many_lines)]
     fn scan_plain_scalar(&mut self) -> Result<Token<'input>, ScanError> {
-        self.unroll_non_block_indents();
-        let indent = self.indent + 1;
+        // Inside a flow collection, the indentation level created for its content must outlive the
+        // scalar: it is what the lines of the collection that follow are checked against.
+        if self.flow_level == 0 {
+            self.unroll_non_block_indents();
+        }
+        let indent = self.block_indent() + 1;
         let start_mark = self.mark;
 
         if self.flow_level > 0 && (start_mark.col as isize) < indent {
@@ -2588,6 +2592,19 @@ impl<'input, T: Input> Scanner<'input, T> {
             });
             self.indent += 1;
         }
+    }
+
+    /// The indentation of the innermost block, ignoring the levels created with
+    /// [`Self::roll_one_col_indent`].
+    fn block_indent(&self) -> isize {
+        let mut block_indent = self.indent;
+        for indent in self.indents.iter().rev() {
+            if indent.needs_block_end {
+                break;
+            }
+            block_indent = indent.indent;
+        }
+        block_indent
     }
 
     /// Unroll all last indents created with [`Self::roll_one_col_indent`].
